@@ -311,14 +311,14 @@ def job(arg):
     if kind == "roundtrip":
         first = item
         for code in CODES:
-            for n in range(0, 3):
+            for n in range(0, 3 if tier == "quick" else 4):
                 for rest in itertools.combinations(OPTION_ITEMS, n):
                     items = ([first] if first is not None else []) + list(rest)
                     if first is None and n > 0:
                         continue
                     if first is not None and any(OPTION_ITEMS.index(r) <= OPTION_ITEMS.index(first) for r in rest):
                         continue
-                    for pl in PAYLOADS if n < 2 else PAYLOADS[:2]:
+                    for pl in PAYLOADS if n < 2 else PAYLOADS[:2] if n < 3 else PAYLOADS[1:2]:
                         roundtrip(res, code, items, pl)
         res.sample({"code": "POST", "options": [first[0]] if first else [], "payload_len": 17})
     elif kind == "binding":
